@@ -147,6 +147,12 @@ class Injector:
         if self.trace_lines is not None:
             self.trace_lines.append((os.path.basename(frame.f_code.co_filename),
                                      frame.f_lineno, frame.f_code.co_name))
+        if self.mode == "budget":
+            if self.count > self.at:
+                self._mark(frame)
+                self.on_kill(self)
+                os._exit(0)
+            return self.local
         if self.mode == "count" or self.fired is not None and not self.pending:
             return self.local
         if self.count == self.at or self.pending:
@@ -265,6 +271,10 @@ def _child(wfd, root, argv, cwd, kspec, inject, env, pre, post, want_events):
                     res["inject"]["event_idx"] = len(k.events)
                 if injector.mode == "kill":
                     send({"status": "killed", "lines": injector.count})
+                if injector.mode == "budget":
+                    send({"status": "livelock", "lines": injector.count,
+                          "detail": "more than %d lines executed; spinning in %s" % (
+                              injector.at, " <- ".join("%s:%s" % (f[2], f[1]) for f in injector.fired["stack"][:5]))})
 
             inj = Injector(on_kill=on_kill, **inject)
         if pre is not None:
@@ -312,16 +322,26 @@ def _child(wfd, root, argv, cwd, kspec, inject, env, pre, post, want_events):
         os._exit(0)
 
 
+LINE_BUDGET = 1000000
+_HANG_SEEN = [False]
+
+
 def run_cond(root, argv, cwd=None, kspec=None, inject=None, env=None, timeout=None,
-             pre=None, post=None, want_events=True):
+             pre=None, post=None, want_events=True, _retry=False):
     """Run one `cond <argv>` invocation in a forked child; return the result dict.
 
     result keys: status (int | "deadlock" | "killed"), stdout, stderr (bytes),
     events (list), kernel (summary), uncaught, inject, lines
     """
+    if _HANG_SEEN[0] and kspec is not None and inject is None and not _retry:
+        # a non-returning run was already seen in this process: run under the line budget right away
+        res = run_cond(root, argv, cwd=cwd, kspec=kspec, env=env, timeout=240, pre=pre, post=post,
+                       want_events=want_events, inject={"mode": "budget", "at": LINE_BUDGET}, _retry=True)
+        res.pop("inject", None) if res.get("status") != "livelock" else None
+        return res
     if timeout is None:
         # virtual-kernel runs take milliseconds; real children may write megabytes
-        timeout = int(os.environ.get("VERIF_RUN_TIMEOUT", "30" if kspec is not None else "120"))
+        timeout = int(os.environ.get("VERIF_RUN_TIMEOUT", "15" if kspec is not None else "120"))
     r, w = os.pipe()
     sys.stdout.flush()
     sys.stderr.flush()
@@ -337,6 +357,14 @@ def run_cond(root, argv, cwd=None, kspec=None, inject=None, env=None, timeout=No
             left = deadline - time.monotonic()
             if left <= 0:
                 os.kill(pid, signal.SIGKILL)
+                if kspec is not None and inject is None and not _retry:
+                    # Deterministic classification of a non-returning virtual run: execute it again with a
+                    # budget of executed lines (hundreds of times a normal run). Exceeding it is a livelock.
+                    res = run_cond(root, argv, cwd=cwd, kspec=kspec, env=env, timeout=240, pre=pre, post=post,
+                                   want_events=want_events, inject={"mode": "budget", "at": LINE_BUDGET}, _retry=True)
+                    if res.get("status") == "livelock":
+                        _HANG_SEEN[0] = True
+                        return res
                 raise HarnessError("cond %r did not finish within %ss (inconclusive)" % (argv, timeout))
             rr, _, _ = select.select([r], [], [], min(left, 5.0))
             if rr:
